@@ -33,7 +33,11 @@ def main():
                           drive.stale_handed_out["earlier-output"]),
                          ("context:decoy-files-placed-in-the-working-directory", drive.decoys_placed[0]),
                          ("context:real-cli-runs-with-python-O", drive.optimized_runs[0]),
-                         ("context:real-cli-runs-in-an-ascii-locale", drive.ascii_locale_runs[0])):
+                         ("context:real-cli-runs-in-an-ascii-locale", drive.ascii_locale_runs[0]),
+                         ("context:real-cli-runs-with-warnings-as-errors", drive.warnings_as_errors_runs[0]),
+                         ("context:same-named-decoy-keys-planted-in-HOME", drive.planted_in_home[0]),
+                         ("context:command-lines-with-option=value", drive.respelled["joined-with-equals"]),
+                         ("context:command-lines-with-options-reordered", drive.respelled["options-reordered"])):
                 if v:
                     rec.count(k, v)
         elif mode == "canary":
